@@ -103,6 +103,9 @@ func useLibrary(g *vf.Rng, c libCfg) {
 		_ = h.WriteHeader(&wb)
 	})
 	consolePokes(g)
+	for pkg := range apiPokeReg.byPkg { // exported functions that are new to the monitors (apipoke.go)
+		apiPokes(pkg, uint64(g.U32()&0xFFFFFF), uint64(g.U8()), uint64(g.U32()))
+	}
 }
 
 // consolePokes: ... and what a program that also runs the emulated console does: its software
